@@ -100,4 +100,10 @@ var mslKnownDefects = mslDefects{
 	// M4 (front end, = GLSL D8): a call of a user function named "vecs" is lowered to a
 	// vector constructor; the MSL backend then spells the type "metal::int67".
 	"function named vecs": {"*": "metal::int67"},
+	// M5: with the ReadZeroSkipWrite index policy a checked load is written
+	// "c ? x : DefaultConstructible()" WITHOUT parentheses even when it is an operand:
+	// "o[7] = uint(_e70) < 4 ? v[_e70] : DefaultConstructible() + uint(i) < 2 ? ... : DefaultConstructible();"
+	// which C++ parses as c1 ? v[..] : ((DefaultConstructible() + uint(i)) < 2 ? ... ) - ill-formed
+	// (operator+ on the helper struct is ambiguous), and mis-associated even if it compiled.
+	"vector construction swizzle component write": {"3.1 map rzsw loop-bound": "with a DefaultConstructible operand is ambiguous"},
 }
